@@ -22,6 +22,9 @@ Deciding step: complete enumeration of declared finite products on the real impo
      and the calendar axes (16 ranges x 9 weekday sets) at full resolution;
 * R  (same object) every sequence of up to 3 rows on ONE directed route and its reverse that
      differ only in the stated distance (plausible / other plausible / implausible / not stated);
+* Vd degenerate spellings of every skip-reason field (blank, white space, two-letter
+     combinations of skip codes, prefixes, lower case, 0/00/000/blank numerics), all pairs of
+     fields crossed completely;
 * M  "same object" histories: every sequence of up to 3 rows from a 7-row alphabet added
      to ONE database (shared airport cache, line-keyed warnings, flight ids), also through
      the file converter.
@@ -68,7 +71,15 @@ ASSUMPTIONS = [
     'a range whose explicit dates lie outside the data year is expanded as written; a reversed range has no instances',
     'schedules.day is compared with the UTC day number of the departure instant (documented in the importer as '
     '"day number since Unix epoch"), reported under its own kind',
-    'hours 00-23 / minutes 00-59 only; malformed rows (non-numeric fields) are outside the quantifier',
+    'hours 00-23 / minutes 00-59 only',
+    'spellings of skip-reason fields: ONLY the exact documented codes (service V/U, operating N, the six equipment '
+    'codes, the one-character end-of-file carrier, non-zero stops, airport code absent from the airport data) are '
+    'skip reasons. Blank / white-space cells, two-letter combinations and concatenations of skip codes (VU, NO, '
+    'BUSTRN), prefixes (BU, JF) and zero spelt 0 / 00 / 000 / " 0" are NOT: such a row must be imported (blank or '
+    'unknown airport code = documented "unknown airport" skip). The documentation is SILENT, and either outcome is '
+    'accepted (outcome class rule-silent:*), for: a value that equals a documented code only after trimming blanks '
+    'or upper-casing (v, " V", n, bus, " BUS", jfk, "BOS "), a carrier containing the EOF character among others, '
+    'and blank / non-numeric stops or distance cells (malformed row)',
     'third-party timezonefinder.TimezoneFinder construction is memoised per worker process (40 ms of file reads per '
     'database object otherwise); the importer still performs its own lazy construction call and every lookup',
     'convert_oag_data raising ZeroDivisionError inside report() when no row was imported (database already complete) '
@@ -95,7 +106,7 @@ def make_row(o='LAX', d='JFK', dist='exact', **kw):
         'efffrom': '20190115', 'effto': '20190115', 'longest': 'L', 'operating': 'O',
     }  # fmt: skip
     r.update(kw)
-    r['distance'] = '%07d' % stated_miles(o, d, dist)
+    r['distance'] = dist[4:] if isinstance(dist, str) and dist.startswith('raw:') else '%07d' % stated_miles(o, d, dist)
     return r
 
 
@@ -187,6 +198,22 @@ V_AXES = {
     'depapt': ['JFK', 'QPX'],
     'arrapt': ['BOS', 'ZZZ'],
     'dist': ['exact', 'x2.0'],
+}
+
+# Degenerate spellings a CSV cell can contain, per skip-reason field.  What the documented rules imply
+# (vf.ref.c13_schedule.field_verdicts): only the exact documented codes are skip reasons; blank, white
+# space, two-letter combinations of skip codes, prefixes / concatenations are NOT (row must be imported);
+# spellings that become a documented code after trimming / upper-casing, and blank / non-numeric numeric
+# fields, are cases where the documentation is silent (either outcome accepted).
+VD_AXES = {
+    'service': ['J', 'V', 'U', '', ' ', 'VU', 'UV', 'JV', 'v', 'u', ' V', 'V '],
+    'stops': ['00', '0', '000', ' 0', '01', '1', '10', ''],
+    'operating': ['O', 'N', '', ' ', 'NO', 'ON', 'NN', 'n', ' N'],
+    'genacft': ['737', 'BUS', 'TRN', '', ' ', 'BU', 'US', 'BUSTRN', 'RFSTRN', 'bus', ' BUS'],
+    'carrier': ['XX', '\x1a', '', ' ', '\x1a\x1a', 'X\x1a'],
+    'dist': ['exact', 'raw:0', 'raw:00', 'raw:0000000', 'raw:', 'raw: '],
+    'depapt': ['JFK', 'QPX', '', ' ', 'JFKBOS', 'JF', 'jfk', ' JFK'],
+    'arrapt': ['BOS', 'ZZZ', '', 'BOSJFK', 'bos', 'BOS '],
 }
 
 M_ALPHABET = {
@@ -313,6 +340,27 @@ def sublattices(tier, seed):
         cases.append({'sub': 'V', 'year': 2019, 'via': 'add', 'rows': [make_row(o, d, dist=dist, **kv)]})
     subs.append({'name': 'V: product of the documented skip reasons', 'axes': V_AXES, 'cases': cases})
 
+    # ---- Vd: every PAIR of skip-reason fields crossed completely over the degenerate spellings,
+    # the other fields at their plain valid value (first alphabet entry)
+    cases = []
+    seen = set()
+    vkeys = list(VD_AXES)
+    for f1, f2 in itertools.combinations(vkeys, 2):
+        for v1, v2 in itertools.product(VD_AXES[f1], VD_AXES[f2]):
+            kv = {k: VD_AXES[k][0] for k in vkeys}
+            kv[f1], kv[f2] = v1, v2
+            key = tuple(kv[k] for k in vkeys)
+            if key in seen:
+                continue
+            seen.add(key)
+            o, d, dist = kv.pop('depapt'), kv.pop('arrapt'), kv.pop('dist')
+            cases.append({'sub': 'Vd', 'year': 2019, 'via': 'add', 'rows': [make_row(o, d, dist=dist, **kv)]})
+    subs.append({
+        'name': 'Vd: degenerate spellings of the skip-reason fields, all pairs of fields crossed completely',
+        'axes': VD_AXES,
+        'cases': cases,
+    })  # fmt: skip
+
     # ---- M
     letters = list(M_ALPHABET)
     cases = []
@@ -374,6 +422,10 @@ def worker_init(tier, seed):
             raise HarnessError(f'{code} is supposed to be an unknown airport')
     _STATE['known_all'] = set(seen)
     from AEIC.missions import oag  # noqa: F401  (import cost once per worker)
+    import logging
+
+    # from_csv_row logs a traceback for every unreadable row (blank numeric fields in sub-lattice Vd)
+    logging.getLogger('AEIC.missions.oag').setLevel(logging.CRITICAL)
 
     # Third-party environment, not code under test: constructing a TimezoneFinder re-reads ~20 binary
     # files (40 ms = 93 % of a case).  The importer still runs its own lazy `TimezoneFinder()` call per
@@ -611,7 +663,7 @@ def _evaluate(case):
         line = i + 2
         label = (
             f'row {i + 1} {row["depapt"]}->{row["arrapt"]} [{row["efffrom"]},{row["effto"]}] days={row["days"]!r} '
-            f'dep {row["deptim"]} arr {row["arrtim"]} arrday={row["arrday"]!r} stated {int(row["distance"])} mi (data year {year})'
+            f'dep {row["deptim"]} arr {row["arrtim"]} arrday={row["arrday"]!r} stated {row["distance"].lstrip("0") or "0"!r} mi (data year {year})'
         )
         fl = by_fltno.get(str(int(row['fltno'])), []) if unique_numbers else tables['flights']
         step = steps[i] if steps is not None and i < len(steps) else None
@@ -620,6 +672,12 @@ def _evaluate(case):
         kind = exp['kind']
         if kind == 'import':
             accepted_expected += 1
+        if kind == 'either':
+            # the documented rules are silent about this spelling: importing and skipping both accepted
+            accepted_expected += 1 if imported else 0
+            outcomes.append('rule-silent:' + ('imported' if imported else 'skipped'))
+            nontrivial = True
+            continue
         # ---- skip decisions
         if kind != 'import':
             if imported or step == 'added':
